@@ -25,6 +25,11 @@ def concerns_close(sig, text):
             or ":panic" in sig)
 
 
+def concerns_tran(sig, text):
+    what = sig.rsplit(":", 1)[-1]
+    return ("done" in what or "pend" in what or "rv" in what or "watchdog" in sig or ":exit-" in sig or ":asan" in sig or ":ubsan" in sig or ":panic" in sig)
+
+
 def run(v, tier, rng):
     run_life(v, tier, concerns)
     # closing a context / the socket with a queued reply and a pending receive, in every class of state of Rep.tla
@@ -32,4 +37,7 @@ def run(v, tier, rng):
     from checks import c04
     px = Only(v, concerns_close, 1.0)
     c04.rep_part(px, tier == "thorough", mc=False)
+    # closing pipe ends, end points and sockets of the real inproc transport with operations parked on both ends (wire/Inproc.tla)
+    from checks.inproc import run_inproc
+    run_inproc(v, tier, pred=concerns_tran, mc=False, plans=("sim", "reject"), scale=0.7)
     v.cov["divergences_outside_this_property"] = v.cov.get("divergences_outside_this_property", 0) + px.other
